@@ -18,7 +18,7 @@ import (
 
 func init() {
 	PropertyText["C15"] = [2]string{
-		"Decides: the crawl-HQ senders (and the local finisher sender) leave their retry loop only on success or shutdown — no retry cap, no drop (R-RETRY-UNTIL-DONE); in every receiver an item read from the pipeline is appended to the batch, the batch is replaced only after its copy was sent and by a fresh slice, and every dispatched batch reaches a sender (R-BATCH-NO-LOSS); producers and consumers map URL text, via and hop count through the same fields and the same hop encoding, acks carry the item id (R-OUTLINK-FIELDS, R-HOPS); the local queue's UNIQUE(value) index exists and Add skips exactly the constraint error (R-LQ-UNIQUE).",
+		"Decides: the crawl-HQ senders (and the local finisher sender) leave their retry loop only on success or shutdown — no retry cap, no drop (R-RETRY-UNTIL-DONE); in every receiver an item read from the pipeline is appended to the batch, the batch is replaced only after its copy was sent and by a fresh slice, and every dispatched batch reaches a sender (R-BATCH-NO-LOSS); producers and consumers map URL text, via and hop count through the same fields and the same hop encoding, acks carry the item id (R-OUTLINK-FIELDS, R-HOPS); the local queue's UNIQUE(value) index exists and Add skips exactly the constraint error (R-LQ-UNIQUE). The time-triggered flush of each receiver keeps firing: a ticker, or a timer re-armed on every way through its arm (flush-clock clause).",
 		"Not decided: the exact driver error text the constraint test matches (owned by the sqlite driver); delivery under crash; crawl HQ's server semantics; the local producer gives up on a failing Add (not part of the stated property, which names crawl-HQ errors).",
 	}
 	register(&core.Rule{ID: "R-RETRY-UNTIL-DONE", Props: []string{"C15"}, Doc: "hq.producerSender, hq.finisherSender, lq.finisherSender: every return is reachable only through the ctx.Done() arm or through err==nil of the queue call made in that iteration; siblings must agree", Run: ruleRetryUntilDone})
